@@ -187,7 +187,17 @@ Theorem plan_rack_spread : forall st o st' its,
 Proof.
   intros st o st' its H Hwf e m Hin.
   destruct (run_plan_spread _ _ _ _ H Hwf) as [_ [S _]].
-  unfold spread_ok in S. rewrite Forall_forall in S. apply (S _ Hin).
+  unfold spread_ok in S. rewrite Forall_forall in S. destruct (S _ Hin) as [A [B _]]. split; assumption.
+Qed.
+
+(* no planned move of any phase targets a node without a free slot: no uniqueness, no absence of drops *)
+Theorem plan_move_free : forall st o st' its,
+  run_plan false st o = Some (st', its) -> wf (nodes st) ->
+  forall e m, In (IMove e m) its -> (0 < m_dst_free m)%Z.
+Proof.
+  intros st o st' its H Hwf e m Hin.
+  destruct (run_plan_spread _ _ _ _ H Hwf) as [_ [S _]].
+  unfold spread_ok in S. rewrite Forall_forall in S. destruct (S _ Hin) as [_ [_ C]]. exact C.
 Qed.
 
 (* ====================== concrete runs: witnesses and non-vacuity ====================== *)
@@ -274,5 +284,26 @@ Theorem example_run :
 Proof.
   split; [wf_tac|]. split; [vm_compute; reflexivity|]. split; [vm_compute; reflexivity|].
   destruct (run_plan false (init_state ex_nodes) ex_orc) as [[st' its]|] eqn:R; [|vm_compute in R; discriminate].
+  exists st', its. split; auto. vm_compute in R. inv R. vm_compute. repeat split.
+Qed.
+
+(* non-vacuity of the balanceEcRacks statements: one rack, a loaded server (6 shards of two volumes,
+   2 free slots) and an empty one (10 free slots): two rack moves (1.0 then 2.0), nothing lost *)
+Definition ex_rack_nodes : list node := [mk_node 1 0 10 []; mk_node 0 0 2 [mk_entry 1 15; mk_entry 2 3]].
+Definition ex_rack_orc : plan_orc :=
+  {| po_rounds := []; po_racks := Some [{| rb_rack := 0; rb_steps := [(1, 0); (1, 0); (1, 0)] |}] |}.
+Definition is_rack_move (i : item) : bool :=
+  match i with IMove _ m => match m_kind m with KRack => true | _ => false end | _ => false end.
+
+Theorem example_rack_run :
+  wf ex_rack_nodes /\ bits32 ex_rack_nodes = true /\ has_dup ex_rack_nodes = false /\ gate ex_rack_nodes = true /\
+  exists st' its, run_plan false (init_state ex_rack_nodes) ex_rack_orc = Some (st', its) /\
+    has_drop its = false /\
+    events_of its = [ERackMove 0 1 0 1; ERackMove 0 2 0 1] /\
+    length (filter is_rack_move its) = 2%nat /\
+    map (fun n => (n_free n, find n 1, find n 2)) (nodes st') = [(8%Z, 1, 1); (4%Z, 14, 2)].
+Proof.
+  split; [wf_tac|]. split; [vm_compute; reflexivity|]. split; [vm_compute; reflexivity|]. split; [vm_compute; reflexivity|].
+  destruct (run_plan false (init_state ex_rack_nodes) ex_rack_orc) as [[st' its]|] eqn:R; [|vm_compute in R; discriminate].
   exists st', its. split; auto. vm_compute in R. inv R. vm_compute. repeat split.
 Qed.
